@@ -415,3 +415,16 @@ def _():
 @evaluator("swu.sgn0-flip")
 def _():
     return P_BLS % 2 == 1, "p odd: sgn0(-y) = 1 - sgn0(y) for y != 0"
+
+
+@evaluator("twist.embedding")
+def _():
+    ok = True
+    for mn, c in (("py_ecc.bn128.bn128_curve", 9), ("py_ecc.optimized_bn128.optimized_curve", 9),
+                  ("py_ecc.bls12_381.bls12_381_curve", 1), ("py_ecc.optimized_bls12_381.optimized_curve", 1)):
+        m = M(mn)
+        w = m.w
+        i_img = w ** 6 - m.FQ12([c] + [0] * 11)              # iota(i) = w^6 - c
+        ok = ok and i_img * i_img == m.FQ12([-1] + [0] * 11)
+        ok = ok and (m.FQ2([0, 1]) * m.FQ2([0, 1]) == m.FQ2([-1, 0]))
+    return ok, "iota(i)^2 = -1 with iota(i) = w^6 - c (c = 9 for alt_bn128, 1 for BLS12-381): iota is a field embedding F_p2 -> F_p12"
